@@ -135,7 +135,8 @@ def observe(cfg, read, want, extra=None):
     e = cfg.fields()
     e["r"] = codes(read)
     e["want"] = list(want)
-    use_pickled = ad[2] is not None and (hash((cfg.key(), read)) % 7 == 0)
+    import zlib
+    use_pickled = ad[2] is not None and (zlib.crc32(repr((cfg.key(), read)).encode()) % 7 == 0)     # (deterministic)
     e["pickled"] = use_pickled
     for tag, adapter in (("", ad[2] if use_pickled else ad[0]), ("_nf", ad[3] if use_pickled else ad[1])):
         try:
